@@ -13,6 +13,12 @@ CLAIMS = {
         'note': 'Trusts clang-14 AST/CFG, tools/yrx.cc, the summaries in yrsa/callgraph.py, the enumerated idioms (FAIL_ON_ERROR family, out-parameter NULL test, result-accumulating chains, correlated flag variables) and the exception table OWNERSHIP_EXCEPTIONS. Intraprocedural typestate with callee summaries; aliasing through stores is treated as escape (fewer reports, never more).',
         'technique': 'static error-discipline analysis: return-code summaries + unchecked->checked and owned->released typestate over clang CFG, path-sensitive on correlated conditions',
     },
+    'C08': {
+        'text': 'Decides the structure the save/load round trip rests on, at every site: each yr_arena_allocate_struct registers exactly the DECLARE_REFERENCE pointer fields of its record and no arena record holds other raw pointers; no pointer is emitted into bytecode as an integer; every store into a relocatable slot stores NULL, an arena pointer or a copy of another slot (provenance, one level through parameters); yr_arena_save_stream restores the swapped pointers on every return; each saved buffer is zeroed-struct-only, fully-overwritten-write-only or structs plus memset terminators, and raw-written records have no padding; yr_rules_from_arena initialises every YR_RULES field. Necessary clauses of C08; equality of results after reload is not decided.',
+        'design_ref': 'DESIGN.md section 4, C08 (R8.1-R8.6)',
+        'note': 'Trusts clang record layouts, tools/yrx.cc, the table EXTRA_SLOTS (YR_EXTERNAL_VARIABLE.value.s) and TERMINATOR_FUNCS; records reached through a pointer are taken to be arena-resident.',
+        'technique': 'static registry-completeness + value-provenance + save/restore typestate + per-buffer allocation-kind table over clang AST/CFG facts',
+    },
     'C12': {
         'text': 'Decides, for every constant-folding grammar action, that the folder applies the same C operator and the same operand-value guards as the VM handler of the opcode the action emits; that no compiler-layer code reads a run-time object value; that externals are looked up in the scanner-owned table; and that shortcut flags are cleared on every path that uses a string otherwise. These are necessary structural clauses of C12, decided on all sites; verdict equality itself is not decided.',
         'design_ref': 'DESIGN.md section 4, C12 (R12.1-R12.6)',
